@@ -153,6 +153,9 @@ func (e *Engine) strEq(x, y V) V {
 		return vBool(x.P.(string) == y.P.(string))
 	}
 	if isOpaqueStr(x) || isOpaqueStr(y) {
+		if r, ok := opaqueDiffer(strBytes(x), strBytes(y)); ok {
+			return vBool(r)
+		}
 		e.unsupported("comparison of an opaque formatted string")
 	}
 	if strLen(x) != strLen(y) {
@@ -241,7 +244,14 @@ func (e *Engine) unop(instr *ssa.UnOp, x V) V {
 		if x.K == KSymElem {
 			return e.loadSym(deref(instr.X.Type()), x)
 		}
-		return e.load(deref(instr.X.Type()), x.ptr())
+		v := e.load(deref(instr.X.Type()), x.ptr())
+		if v.K == KSym && v.term().W == 0 {
+			// a bool cell read through *(*byte)(unsafe.Pointer(&b)): 0 or 1
+			if w, signed, ok := basicInfo(instr.Type()); ok && w > 1 {
+				return e.fromTerm(e.ts.BoolToBV(v.term(), w), signed)
+			}
+		}
+		return v
 	case token.SUB:
 		t := instr.X.Type()
 		switch x.K {
@@ -1148,4 +1158,52 @@ func (e *Engine) strIndex(x, idx V, it types.Type) V {
 		return vUint(uint64(x.P.(string)[i]))
 	}
 	return x.P.(*SymStr).B[i]
+}
+
+// opaqueDiffer decides x == y for strings with opaque segments (unknown content and length)
+// when the concrete parts already settle it: a concrete mismatch in the common concrete
+// prefix or suffix, or one side fully concrete and shorter than the other's concrete bytes.
+// ok=false means undecidable.
+func opaqueDiffer(x, y []V) (equal bool, ok bool) {
+	conc := func(b []V) (n int, all bool) {
+		all = true
+		for _, c := range b {
+			if c.K == KInt {
+				n++
+			} else if c.K == KOpq {
+				all = false
+			} else {
+				return n, false
+			}
+		}
+		return
+	}
+	nx, ax := conc(x)
+	ny, ay := conc(y)
+	// one side fully concrete and too short to contain the other's concrete bytes
+	if ay && ny < nx {
+		return false, true
+	}
+	if ax && nx < ny {
+		return false, true
+	}
+	// common concrete prefix
+	for i := 0; i < len(x) && i < len(y); i++ {
+		if x[i].K != KInt || y[i].K != KInt {
+			break
+		}
+		if x[i].N != y[i].N {
+			return false, true
+		}
+	}
+	for i := 1; i <= len(x) && i <= len(y); i++ {
+		a, b := x[len(x)-i], y[len(y)-i]
+		if a.K != KInt || b.K != KInt {
+			break
+		}
+		if a.N != b.N {
+			return false, true
+		}
+	}
+	return false, false
 }
